@@ -254,7 +254,53 @@ fn enumerate_c19(cli: &Cli, r: &Report) {
     }));
 }
 
+/// Child mode: a tuned benchmark whose threshold uses the precision the timer *reports* (measured under
+/// the virtual clock and cached per process), optionally after the OS timer was asked for its precision
+/// first. Prints the final sample size.
+fn reported_precision_child(order: &str) -> ! {
+    if order == "os_first" {
+        let _ = divan::verif::reported_precision(None);
+    }
+    let mut case = LoopCase::basic(0, 0, 0);
+    case.freq = 1; // one tick = one second: no host clock comes near it
+    case.read_cost = 1;
+    case.sample_count = Some(1);
+    case.sample_size = None;
+    case.cost[SITE_CALL] = vec![1];
+    case.unforced_precision = true;
+    case.horizon = 100_000;
+    let out = run_case(&case);
+    match &out.report {
+        Some(rep) => println!("size {}", rep.sample_size),
+        None => println!("panic {:?}", out.panic),
+    }
+    std::process::exit(0)
+}
+
+fn check_reported_precision(r: &Report) {
+    for order in ["tsc_only", "os_first"] {
+        let out = std::process::Command::new(std::env::current_exe().unwrap())
+            .env("TIMEMC_PRECISION_CHILD", order)
+            .output()
+            .expect("spawn timemc child");
+        let text = String::from_utf8_lossy(&out.stdout).trim().to_owned();
+        // a call costs one tick, a read one tick, the clock steps by one tick: the first size whose sample
+        // spans more than 100 steps is 128 (64 + 2 reads <= 100)
+        if text != "size 128" {
+            r.violation(Violation {
+                sig: json!({"engine":"S","class":"threshold-uses-another-timers-precision","order":order}),
+                text: format!("a tuned benchmark on a TSC stepping by 1 s (a call = 1 step){}: answered {text:?}, the first size whose sample exceeds 100 steps is 128 (stderr: {})", if order == "os_first" { ", in a process that asked the OS timer for its precision first" } else { "" }, String::from_utf8_lossy(&out.stderr).chars().take(300).collect::<String>()),
+                case: json!({"kind":"reported-precision","order":order}),
+            });
+        }
+        r.case(1);
+    }
+}
+
 fn main() {
+    if let Ok(order) = std::env::var("TIMEMC_PRECISION_CHILD") {
+        reported_precision_child(&order);
+    }
     let cli = Cli::parse();
     mc_seq::quiet_panics();
     let mut prop = "C04".to_owned();
@@ -266,13 +312,22 @@ fn main() {
     }
     let r = Report::new(&format!("timemc-{prop}"), &cli);
     if let Some(case) = &cli.case {
+        if case["kind"] == "reported-precision" {
+            check_reported_precision(&r);
+            r.emit();
+        }
         let case: LoopCase = serde_json::from_value(case.clone()).expect("LoopCase");
         check(&r, &prop, &case, 0);
         r.emit();
     }
     match prop.as_str() {
         "C04" => enumerate_c04(&cli, &r),
-        "C19" => enumerate_c19(&cli, &r),
+        "C19" => {
+            enumerate_c19(&cli, &r);
+            if cli.mine(0) {
+                check_reported_precision(&r);
+            }
+        }
         p => panic!("unknown property {p}"),
     }
     r.emit();
